@@ -68,6 +68,28 @@ def lib():
         def getshape_class(self):
             return (3,)
 
+        # more items, with names that start with the letters of the 'getshape_' / 'getdim_' prefixes
+        def getshape_target(self):
+            return (7,)
+
+        def getshape_timestep(self):
+            return (1000,)
+
+        def getshape_step(self):
+            return (5,)
+
+        def getshape_mask(self):
+            return (11,)
+
+        def getshape_edge_attr(self):
+            return (13,)
+
+        def getshape_attr(self):
+            return (17,)
+
+        def getshape_x(self):
+            return (19,)
+
         def dispose(self):
             self.disposed += 1
 
@@ -425,6 +447,15 @@ def check_spec(spec, bulk="list"):
             if obj.getshape_class() != (3,) or obj.getdim_class() != 3 or obj.getshape("class") != (3,) \
                     or obj.getdim("class") != 3:
                 bad("getshape", "wrong", "")
+            for nm, dim in (("target", 7), ("timestep", 1000), ("step", 5), ("mask", 11), ("edge_attr", 13), ("attr", 17), ("x", 19)):
+                try:
+                    got4 = (getattr(obj, f"getshape_{nm}")(), getattr(obj, f"getdim_{nm}")(), obj.getshape(nm), obj.getdim(nm))
+                except Exception as e:
+                    bad("getshape", f"item_name_not_resolved:{type(e).__name__}", f"{nm}: {e!r}")
+                    break
+                if got4 != ((dim,), dim, (dim,), dim):
+                    bad("getshape", "wrong_for_item_name", f"{nm}: {got4}, expected dim {dim}")
+                    break
             obj.dispose()
             if root.disposed != 1:
                 bad("dispose", "root_not_reached", f"disposed={root.disposed}")
